@@ -1028,6 +1028,50 @@ fn cast_into_memory(
         return Some(memory.into_value(builder, ptr_ty));
     }
 
+    // a variant going into an optional or error union of its own enum (`return Err.Bad;` in a
+    // function returning `Err!u64`) first becomes a value of that enum. if the variant was unwrapped
+    // here, its payload would be taken for a value of the other member of the union
+    if let Ty::EnumVariant {
+        enum_uid: from_enum_uid,
+        ..
+    } = cast_from.as_ref()
+    {
+        let is_own_enum = |ty: &Intern<Ty>| matches!(ty.as_ref(), Ty::Enum { uid, .. } if uid == from_enum_uid);
+
+        let own_enum = match cast_to.as_ref() {
+            Ty::Optional { sub_ty } if is_own_enum(sub_ty) => Some(*sub_ty),
+            Ty::ErrorUnion { error_ty, .. } if is_own_enum(error_ty) => Some(*error_ty),
+            Ty::ErrorUnion { payload_ty, .. } if is_own_enum(payload_ty) => Some(*payload_ty),
+            _ => None,
+        };
+
+        if let Some(own_enum) = own_enum {
+            let as_enum = cast_into_memory(
+                meta_tys,
+                module,
+                builder,
+                func_writer,
+                ptr_ty,
+                val,
+                cast_from,
+                own_enum,
+                None,
+            );
+
+            return cast_into_memory(
+                meta_tys,
+                module,
+                builder,
+                func_writer,
+                ptr_ty,
+                as_enum,
+                own_enum,
+                cast_to,
+                memory,
+            );
+        }
+    }
+
     // if it wasn't variant -> enum, we unwrap the variant fully and check for other casts
     cast_from = cast_from.absolute_intern_ty(true);
 
